@@ -36,10 +36,24 @@ def applicable(root, persistent):
     return out
 
 
-def do_step(cur_root, persistent, ri, k, objs, prev):
-    """one session step: node k of the current root, cloned from the root, rule ri applied"""
+def read_only_calls(root):
+    """what a caller showing the tree to a user does between steps; none of it may change what comes next"""
+    small = len(rewrite.inorder(root)) <= 40          # to_math_ml of a deep product takes exponential time
+    for f in (lambda: root.terminal_text, lambda: root.to_math_ml() if small else "", lambda: root.to_list(), lambda: root.get_root(), lambda: str(root),
+              lambda: [n.raw for n in root.to_list()], lambda: root.evaluate({"x": 2, "y": 3, "z": 5}), lambda: root.terminal_text):
+        try:
+            f()
+        except BaseException:  # noqa
+            pass
+
+
+def do_step(cur_root, persistent, ri, k, objs, prev, style="clone"):
+    """one session step: node k of the current root, rule ri applied - on a clone taken from the root (style 'clone'), or, as a
+    caller that keeps one tree does, after find_nodes() of every rule on the current tree and IN PLACE (style 'inplace')"""
     name, opt, rule = persistent[ri]
     nd = rewrite.inorder(cur_root)[k]
+    if style == "inplace":
+        return do_step_inplace(cur_root, persistent, ri, k, nd)
     s = {"rule": name, "opt": opt, "k": k, "src": project.term(cur_root), "res": 0, "hr": {"n": 0}, "printed": "", "reparse": "-",
          "re": {"k": "c", "n": 0, "d": 1}, "changed": []}
     new_root = None
@@ -61,6 +75,7 @@ def do_step(cur_root, persistent, ri, k, objs, prev):
             s["hr"], s["res"] = compact_heap(new_root)
         except BaseException:  # noqa  (cyclic result etc.)
             s["hr"], s["res"] = {"n": 0}, 0
+        read_only_calls(new_root)
         try:
             s["printed"] = str(new_root)
             try:
@@ -71,7 +86,47 @@ def do_step(cur_root, persistent, ri, k, objs, prev):
         except BaseException as e:  # noqa
             s["printed"] = "<str() raised %s>" % type(e).__name__
             s["reparse"] = "unprintable"
-    return s, new_root, cur_snap
+    return s, new_root, cur_snap, objs
+
+
+def do_step_inplace(cur_root, persistent, ri, k, nd):
+    name, opt, rule = persistent[ri]
+    s = {"rule": name, "opt": opt, "k": k, "src": project.term(cur_root), "res": 0, "hr": {"n": 0}, "printed": "", "reparse": "-",
+         "re": {"k": "c", "n": 0, "d": 1}, "changed": [], "style": "inplace"}
+    for _, _, r in persistent:
+        try:
+            r.find_nodes(cur_root)          # leaves its bookkeeping (r_index) on the nodes of this very tree
+        except BaseException:  # noqa
+            pass
+    new_root = None
+    try:
+        res = rule.apply_to(nd).result
+        s["outcome"] = "ok"
+        if res is not None and hasattr(res, "get_root"):
+            new_root = res.get_root()
+    except RecursionError:
+        s["outcome"] = "RecursionError"
+    except BaseException as e:  # noqa
+        s["outcome"] = type(e).__name__
+    objs = project.ObjTable()               # the old objects were changed on purpose: later steps are judged against the tree as it is now
+    snap = project.snapshot(objs, [new_root] if new_root is not None else [])
+    if new_root is not None:
+        try:
+            s["hr"], s["res"] = compact_heap(new_root)
+        except BaseException:  # noqa
+            s["hr"], s["res"] = {"n": 0}, 0
+        read_only_calls(new_root)
+        try:
+            s["printed"] = str(new_root)
+            try:
+                s["re"] = project.term(rewrite.parse(s["printed"]))
+                s["reparse"] = "ok"
+            except BaseException as e:  # noqa
+                s["reparse"] = type(e).__name__
+        except BaseException as e:  # noqa
+            s["printed"] = "<str() raised %s>" % type(e).__name__
+            s["reparse"] = "unprintable"
+    return s, new_root, snap, objs
 
 
 def walk(job):
@@ -97,13 +152,16 @@ def walk(job):
             ris = sorted({a[0] for a in app})
             ri = rng.choice(ris)
             k = rng.choice([a[1] for a in app if a[0] == ri])
-            s, new_root, prev = do_step(cur, persistent, ri, k, objs, prev)
-            tr["steps"].append(s); tr["script"].append([ri, k])
+            style = "inplace" if (len(script) > 3 and script[3] and rng.random() < 0.4) else "clone"
+            s, new_root, prev, objs = do_step(cur, persistent, ri, k, objs, prev, style)
+            tr["steps"].append(s); tr["script"].append([ri, k] + (["inplace"] if style == "inplace" else []))
             if new_root is None or s["outcome"] != "ok" or len(rewrite.inorder(new_root)) > 60:
                 break
             cur = new_root
     else:
-        for ri, k in script:
+        for st in script:
+            ri, k = st[0], st[1]
+            style = st[2] if len(st) > 2 else "clone"
             nodes = rewrite.inorder(cur)
             if k >= len(nodes):
                 break
@@ -113,8 +171,8 @@ def walk(job):
                 ok = False
             if not ok:
                 break
-            s, new_root, prev = do_step(cur, persistent, ri, k, objs, prev)
-            tr["steps"].append(s); tr["script"].append([ri, k])
+            s, new_root, prev, objs = do_step(cur, persistent, ri, k, objs, prev, style)
+            tr["steps"].append(s); tr["script"].append([ri, k] + (["inplace"] if style == "inplace" else []))
             if new_root is None or s["outcome"] != "ok":
                 break
             cur = new_root
@@ -152,7 +210,8 @@ SEEDS = ["4x + 2x", "2x + 3y + x", "(x + 1) * 2", "2(x + 3) + 4x", "x * x^2 * 2"
          "0.000002 * 0.0000003 * x + 0.5", "x * (0.0000004 * 0.0000002)", "(0.000002 / 3000000) * x + y", "1000000 + 0.0005 + x", "4000000.002 * 2 * x", "0.1 * 0.7 * y + 0.3",
          "3x + 4X + 2y", "X * x * 2", "2X + 3X + x", "4x * 2X^2 + y", "0.5x + 0.5y + 1", "0.5x^2 + 0.5x + y", "-6 + 4 + x", "12 + -8 + 2x",
          "(y + 4x) + 3x", "4x + 2 * 3x", "(y * 2x) * 3x", "5 + ((3 + x) + y)", "3x = 6 + 9y", "2 * ((x + 1) + 5) = 20", "x + -2y^2 = 3", "7 = 2 + 4x + y",
-         "x - 2 = 3", "9 - 2x = 3", "-x = 4 + x", "x / 2 = 4", "x^2 = 4 + x^2", "y + (x + 2) = 7", "sgn(x) + 2 = 3", "5 = 3 + 2", "x + x = 2x", "1/2 x = 3"]
+         "x - 2 = 3", "9 - 2x = 3", "-x = 4 + x", "x / 2 = 4", "x^2 = 4 + x^2", "y + (x + 2) = 7", "sgn(x) + 2 = 3", "5 = 3 + 2", "x + x = 2x", "1/2 x = 3",
+         "0^0.5 * x = 0", "(0.0^2)x = 0", "(4^0.5)x = 6", "(4 / 0)x + 2x", "(2 - 2) * x + 2x"] + rewrite.SHARED_ID_EQ_FORMS[:6] + rewrite.SHARED_ID_FORMS[:5]
 
 
 def norm_term(t):
@@ -198,7 +257,7 @@ def walk_script(job):
             tr["agree"] = False
             tr["drift"] = "real can_apply_to refuses the model's step %s:%s at %s" % (rule, opt, path)
             break
-        s, new_root, prev = do_step(cur, persistent, ri, k, objs, prev)
+        s, new_root, prev, objs = do_step(cur, persistent, ri, k, objs, prev)
         tr["steps"].append(s); tr["script"].append([ri, k])
         if new_root is None or s["outcome"] != "ok":
             break
